@@ -255,6 +255,7 @@ class Host(utils.EventEmitter):
     le_acl_packet_queue: DataPacketQueue | None = None
     iso_packet_queue: DataPacketQueue | None = None
     hci_sink: TransportSink | None = None
+    transport_lost: bool = False
     hci_metadata: dict[str, Any]
     long_term_key_provider: Callable[[int, bytes, int], Awaitable[bytes | None]] | None
     link_key_provider: Callable[[hci.Address], Awaitable[bytes | None]] | None
@@ -658,6 +659,7 @@ class Host(utils.EventEmitter):
 
     def set_packet_sink(self, sink: TransportSink | None) -> None:
         self.hci_sink = sink
+        self.transport_lost = False
 
     def set_packet_source(self, source: TransportSource) -> None:
         source.set_packet_sink(self)
@@ -677,6 +679,11 @@ class Host(utils.EventEmitter):
     ) -> hci.HCI_Command_Complete_Event | hci.HCI_Command_Status_Event:
         # Wait until we can send (only one pending command at a time)
         await self.command_semaphore.acquire()
+
+        # Nobody would answer a command sent after the transport was lost
+        if self.transport_lost:
+            self.command_semaphore.release()
+            raise TransportLostError('transport lost')
 
         # Create a future value to hold the eventual response
         assert self.pending_command is None
@@ -999,6 +1006,7 @@ class Host(utils.EventEmitter):
 
     def on_transport_lost(self):
         # Called by the source when the transport has been lost.
+        self.transport_lost = True
         if self.pending_response and not self.pending_response.done():
             self.pending_response.set_exception(TransportLostError('transport lost'))
 
